@@ -40,18 +40,25 @@ def build(tier, seed):
     for dt in DTS:
         for xi in XIS:
             cases.append({'kind': 'batching', 'dt': dt, 'xi': xi})
+    # size-dependent code paths (block-wise evaluation, "large problem" fast paths): long sparse records x long period lists,
+    # a few hundred thousand to a few million period-samples per call, against the same call cut into small pieces
+    for n, m in BIG:
+        for xi in (0.0, 0.05):
+            cases.append({'kind': 'big', 'n': n, 'm': m, 'xi': xi})
     return {
         'cases': cases,
         'rule': 'record cases: every non-zero record a over {-1,0,1} of length 2..%d x every b of the same length x (alpha,beta) in %s '
                 '(linearity); every split point; every shift 1..3 (records starting at 0); every refinement factor 2..8; x dt %s x xi %s x '
                 'T/dt %s, observed at response_series, pseudo_response_spectra and true_response_spectra.  batching cases: every '
                 'permutation of the positive periods of every sub-list of size <= 4 and every set partition into batches, with/without a '
-                'leading 0.  non-trivial = relation instance whose two sides are not identically zero'
-                % (L, list(SCAL), list(DTS), list(XIS), list(RATIOS)),
+                'leading 0.  big cases: sparse records of n samples x m log-spaced periods, (n, m) in %s, dt = 0.01: spectra of the '
+                'whole list vs the list cut into batches of 7, vs the record delayed by 1 and 7 leading zeros, vs the peaks of the '
+                'response-series rows, vs the record refined by 2 (never below).  non-trivial = relation instance whose two sides are not identically zero'
+                % (L, list(SCAL), list(DTS), list(XIS), list(RATIOS), [list(b) for b in BIG]),
         'bounds': {'alphabet': [-1, 0, 1], 'max_len': L, 'dt': DTS, 'xi': XIS, 'T_over_dt': RATIOS, 'refinement': [2, 8], 'shifts': [1, 3]},
         'required_classes': ['pair-independent', 'split-changes-tail', 'shift-nonzero-response', 'perm-nonidentity',
                              'partition-multiblock', 'refine', 'leading-zero-period', 'consecutive-calls', 'int-period-container', 'tiny-scale', 'object-history', 'record-number-type',
-                             'object-refinement-by-shortest-period'],
+                             'object-refinement-by-shortest-period', 'big-problem'],
         'assumptions': ['relations are checked between executions of the implementation itself (no reference values needed)',
                         'refinement only where T/(dt/r) <= 2e4 (the domain of C01)'],
     }
@@ -512,8 +519,96 @@ def run_batching(case, r):
                                 r.fail('batching.partition', sub, 'malformed: %s' % e)
 
 
+BIG = ((9000, 40), (9000, 260), (41000, 64), (2100, 1100), (70000, 33))      # up to 2.7e6 period-samples per call
+
+
+def big_record(n):
+    a = np.zeros(n)
+    for t, v in ((1, 1.0), (2, -2.0), (3, 0.5), (n // 3, 1.5), (n // 3 + 1, -1.0), (n // 2, 2.0), (n - 40, -1.5), (n - 39, 1.0)):
+        a[t] = v
+    return a
+
+
+def run_big(case, r):
+    n, m, xi = case['n'], case['m'], case['xi']
+    dt = 0.01
+    a = big_record(n)
+    periods = np.logspace(np.log10(0.07), np.log10(4.0), m)        # all above 6 dt
+    r.nontrivial += 1
+    r.cls('big-problem')
+    base = {'n': n, 'm': m, 'xi': xi, 'dt': dt}
+    for fname, fn in (('pseudo', sdof.pseudo_response_spectra), ('true', sdof.true_response_spectra)):
+        sub = dict(base, fn=fname)
+        r.states += 1
+        ok, whole = r.call('big.returns', sub, fn, a, dt, periods, xi)
+        if not ok:
+            continue
+        try:
+            whole = [np.asarray(x, dtype=float) for x in whole]
+            if any(x.shape != (m,) for x in whole):
+                raise ValueError('shapes %r' % ([x.shape for x in whole],))
+        except Exception as e:
+            r.fail('big.returns', sub, 'malformed result: %s' % e)
+            continue
+        # (a) each period's result depends on that period only: the list cut into batches of 7
+        parts = [[] for _ in whole]
+        okb = True
+        for k in range(0, m, 7):
+            ok, out = r.call('big.batching', dict(sub, batch=[k, min(k + 7, m)]), fn, a, dt, periods[k:k + 7].copy(), xi)
+            if not ok:
+                okb = False
+                break
+            for j, x in enumerate(out):
+                parts[j].append(np.asarray(x, dtype=float))
+        if okb:
+            r.transitions += 1
+            for j in range(len(whole)):
+                rel_close(r, 'big.batching', dict(sub, output=j), whole[j], np.concatenate(parts[j]), 1e-9 * np.ones(1),
+                          'whole list vs batches of 7 periods')
+        # (b) time shift: leading zeros change nothing in the spectra (the record starts at zero)
+        for k in (1, 7):
+            ok, out = r.call('big.shift', dict(sub, zeros=k), fn, np.concatenate([np.zeros(k), a]), dt, periods, xi)
+            if ok:
+                r.transitions += 1
+                for j in range(len(whole)):
+                    rel_close(r, 'big.shift', dict(sub, zeros=k, output=j), out[j], whole[j], 1e-9 * np.ones(1), 'record delayed by leading zeros')
+        # (c) refinement never lowers the spectral displacement
+        if fname == 'pseudo' and n * m <= 1000000:
+            a2 = np.interp(np.arange(2 * n - 1) / 2.0, np.arange(n), a)
+            ok, out = r.call('big.refinement', sub, fn, a2, dt / 2, periods, xi)
+            if ok:
+                r.transitions += 1
+                try:
+                    sd2 = np.asarray(out[0], dtype=float)
+                    r.expect('big.refinement', sub, bool(np.all(sd2 >= whole[0] * (1 - 1e-6))),
+                             'spectral displacement decreases when the record is refined by 2', observed=sd2, expected=whole[0])
+                except Exception as e:
+                    r.fail('big.refinement', sub, 'malformed: %s' % e)
+    # (d) spectra are the peaks of the response series of the same call size
+    sub = dict(base, fn='response_series')
+    ok, ser = r.call('big.returns', sub, sdof.response_series, a, dt, periods, xi)
+    okp, ps = r.call('big.returns', dict(base, fn='pseudo'), sdof.pseudo_response_spectra, a, dt, periods, xi)
+    if ok and okp:
+        try:
+            u = np.asarray(ser[0], dtype=float)
+            r.transitions += 1
+            rel_close(r, 'big.peak-of-series', sub, np.asarray(ps[0], dtype=float), np.max(np.abs(u), axis=1), 1e-9 * np.ones(1),
+                      'S_d vs max|u| of the response series')
+            # and the series of a sub-list are the rows of the whole
+            ok2, ser2 = r.call('big.batching', dict(sub, batch=[3, 10]), sdof.response_series, a, dt, periods[3:10].copy(), xi)
+            if ok2:
+                for j in range(3):
+                    rel_close(r, 'big.batching', dict(sub, batch=[3, 10], output=j), np.asarray(ser2[j], dtype=float),
+                              np.asarray(ser[j], dtype=float)[3:10], 1e-9, 'rows of the whole list vs the sub-list')
+        except Exception as e:
+            r.fail('big.peak-of-series', sub, 'malformed: %s' % e)
+
+
 def run_case(case):
     r = Res()
+    if case['kind'] == 'big':
+        run_big(case, r)
+        return r
     if case['kind'] == 'record':
         run_record(case, r)
     else:
